@@ -266,7 +266,8 @@ impl<F: PrimeField> RefCS<F> {
             Coef::Chal(s, idx) => {
                 let mut x: F = s.f();
                 for i in idx {
-                    x *= self.chals[*i];
+                    // (a missing challenge only arises after a reported divergence)
+                    x *= self.chals.get(*i).copied().unwrap_or_else(F::one);
                 }
                 x
             }
